@@ -67,6 +67,13 @@ def gen(seed, tier):
             else:
                 segs.append(seg(0, [g.any_frame(r.choice(pool)), sentinel(g)]))
         cases.append(("C18-D%d" % i, "T", opts_str({"i": "x", "u": -1, "o": "x", "D": 1}), ";".join(segs)))
+    # a timestamped feed ("@<12 digits><frame>;"), closed by the peer inside a line -- inside the timestamp, inside the frame
+    for i, cut in enumerate([1, 5, 12, 13, 20, 30]):
+        pool = r.sample([x for x in ICAOS if x != SENT], 2)
+        full = "\n".join("@%012X%s;" % (r.getrandbits(48), g.f_df17(a)) for a in pool) + "\n"
+        part = ("@%012X%s;" % (r.getrandbits(48), g.f_df17(pool[0])))[:cut]
+        cases.append(("C18-at%d" % i, "T", opts_str({"i": "x", "u": -1, "o": "x"}),
+                      ";".join([blob(1, (full + part).encode()), seg(0, [sentinel(g)])])))
     # thousands of connections accepted and dropped at once (the loop must be a loop, not recursion), then a healthy one
     ncyc = 3000
     cases.append(("C18-cyc", "T", opts_str({"i": "x", "u": -1, "o": "x"}), ";".join([seg(1, [g.any_frame(r.choice(ICAOS[:3]))]), blob(11, str(ncyc).encode()), seg(0, [sentinel(g)])])))
